@@ -363,16 +363,22 @@ func rulesC19(p *Prog, r *Report) {
 				bo, ok := v.(*ssa.BinOp)
 				return ok && bo.Op == token.SUB && bo.X == n && isRem(bo.Y)
 			}
+			isBaseShare := func(v ssa.Value) bool {
+				bo, ok := v.(*ssa.BinOp)
+				return ok && bo.Op == token.QUO && bo.X == total && bo.Y == n
+			}
+			// the branch computes (total / n) + 1, stored directly or merged into the appended share
 			plusOne := func(b *ssa.BasicBlock) bool {
 				for _, in := range b.Instrs {
-					if st, ok := in.(*ssa.Store); ok {
-						if bo, ok := st.Val.(*ssa.BinOp); ok && bo.Op == token.ADD {
-							for _, o := range []ssa.Value{bo.X, bo.Y} {
-								if k, ok := o.(*ssa.Const); ok && k.Value != nil && k.Value.ExactString() == "1" {
-									return true
-								}
-							}
-						}
+					bo, ok := in.(*ssa.BinOp)
+					if !ok || bo.Op != token.ADD {
+						continue
+					}
+					if k, isK := bo.Y.(*ssa.Const); isK && k.Value != nil && k.Value.ExactString() == "1" && isBaseShare(bo.X) {
+						return true
+					}
+					if k, isK := bo.X.(*ssa.Const); isK && k.Value != nil && k.Value.ExactString() == "1" && isBaseShare(bo.Y) {
+						return true
 					}
 				}
 				return false
